@@ -41,7 +41,7 @@
    (persist/sqlite/contracts.go:1457) panics otherwise.  No stored contract has the zero id (ids are
    hashes): a Lock RPC for id 0 fails in the manager (the step requires b = true for i = 0).
 
-   RHP3 / RHP4 handlers — bracketed critical sections `Lock(ctx, i); if err return; defer Unlock(i)`:
+   RHP3 handlers — bracketed critical sections `Lock(ctx, i); if err return; defer Unlock(i)`:
      rhp/v3/payments.go:26/31   processContractPayment   (inside processPayment: handleRPCPriceTable,
                                 handleRPCAccountBalance, handleRPCLatestRevision, and handleRPCExecute —
                                 there it has returned, lock released, before the handler's own bracket)
@@ -50,10 +50,10 @@
                                 argument of a deferred call is evaluated at the defer statement)
      rhp/v3/rpc.go:535/541      handleRPCExecute (programs that need a contract; defer
                                 Unlock(contract.Revision.ParentID) = the locked id, see above)
-     coreutils rhp/v4/server.go:146-150 lockContractForRevision (+ `defer unlock()` at 269, 348, 414,
-                                457, 547, 760, 936) and 524/528 handleRPCLatestRevision: LockV2Contract /
-                                the returned closure; coreutils' code, hostd's side of it is
-                                Manager.LockV2Contract (Model.v)
+     (coreutils' RHP4 server was read as a bracket user here until WP-H; it now has its own
+      programs, [UR4] below: lockContractForRevision releases WITHOUT a defer when the contract is
+      not revisable, handleRPCLatestRevision releases before it answers, and no RHP4 Lock call
+      can be cancelled)
      BIdle            the handler has not called Lock (every `return` before it: payments.go:18-21,
                       156-165; rpc.go:279-330, 485-532) or has returned
      BCall i h        inside Lock(ctx, i); an error return (payments.go:27-30, 171-174; rpc.go:334-338,
@@ -66,6 +66,46 @@
    No RHP3 handler takes a second lock while it holds one (handleRPCRenew reads no payment; the two
    brackets of handleRPCExecute follow each other: two rounds of the bracket user).  A goroutine that
    did hold two contracts at once would be two users, as in Model.v.
+
+   RHP4 handlers (coreutils v0.12.2-0.20250409194146-7bb9065821f5, rhp/v4/server.go — the server hostd
+   starts in cmd/hostd with contracts.Manager as its Contractor) — one program per stream, [UR4]:
+     R4Idle           handleHostStream has not reached LockV2Contract, or the handler has returned.
+                      Every `return` BEFORE the lock (R4Pre): the request cannot be decoded
+                      (server.go:261-263, 334-336, 406-408, 446-447, 520-522, 539-541, 745-747, 921-923), it is
+                      invalid (append 338-340, replenish 448-450, refresh/renew price table 751-753 / 927-929),
+                      or LockV2Contract refuses before it touches the locker (thread group closed,
+                      lock.go:115-118).
+     R4Call k i rv    inside s.contractor.LockV2Contract(i) (server.go:146, or 524 for latest revision):
+                      lock.go:122 cm.locks.Lock(context.Background(), i) — NO request context: a queued
+                      handler cannot be cancelled, not by the renter hanging up and not by the stream
+                      deadline (allowed_base: only ARecv / AErrUnlock).  An error return (store.V2Contract
+                      fails, lock.go:126-129: the manager has released) holds nothing; the handler
+                      returns (147-148 -> 266-268, 345-347, 411-413, 454-456, 544-546, 757-759, 933-935; 525-527).
+                      rv = rs.Revisable as the manager will compute it (lock.go:132-137).
+     R4Got k i rv     LockV2Contract returned nil.  k = K4Latest: server.go:528 `unlock()` at once, then
+                      the response is written without the lock.  Other kinds, lockContractForRevision:
+                      !rs.Revisable -> server.go:150 `unlock()` and an error (NO defer registered: the
+                      handler returns at 266-268 etc.); else 153 returns the closure and the handler
+                      registers `defer unlock()` (269, 348, 414, 457, 547, 760, 936).
+     R4Body k i       the body up to the point where it reads the renter's second message, or to a
+                      `return`: free 271-304 (returns 272, 277, 284, 303), append 350-377 (351, 360, 376),
+                      fund 416-441 (423, 428, 435, 438: no second message), replenish 460-489 (462, 467,
+                      486, 488), sector roots 550-586 (551, 558, 565, 575, 582: no second message), refresh
+                      763-854 (765, 771, 791, 802, 808, 810, 826, 840, 853), renew 938-1032 (943, 949, 969, 980,
+                      986, 988, 1004, 1018, 1031).  None of these touches the locker.
+     R4Wait k i       blocked in rhp4.ReadResponse HOLDING the lock (306, 386, 497, 858, 1036) until the
+                      renter's message arrives, the renter closes the stream, or the stream's 30 s
+                      deadline (server.go:1126) passes: R4Renter.  The rest of the body (free 307-329,
+                      append 387-401, replenish 498-515, refresh 859-916, renew 1037-1094: signature
+                      checks, ReviseV2Contract / CreditAccountsWithContract / RenewV2Contract, the last
+                      response) reaches a `return` without touching the locker.
+     R4Ret k i        a `return` was reached after the defer was registered; the deferred unlock() — the
+                      closure of lock.go:144-146, cm.locks.Unlock(i) — is next (R4Defer).
+   The ids RHP4 handlers lock and the ids RHP2/RHP3 users lock live in ONE table (cm.locks,
+   manager.go: a single locker keyed by types.FileContractID) and nothing keeps a renter from
+   naming a v1 contract's id in an RHP4 request (LockV2Contract then queues behind the v1 holder,
+   acquires, fails in store.V2Contract and releases: b = true) or a v2 id in an RHP2/RHP3 Lock.
+   The model therefore lets users of all three protocols contend for the same ids.
 
    The callers of Manager.Lock / Unlock / LockV2Contract / the integrity checks themselves (api,
    tests, Model.v's sessions) are the UFree users: any action of Model.v.
@@ -95,10 +135,29 @@ Inductive bpc :=
 | BHeld (i : cid) (h : bool)
 | BRet (i : cid).
 
+(* the RHP4 handlers that take the contract lock *)
+Inductive r4k := K4Free | K4Append | K4Fund | K4Replenish | K4Roots | K4Refresh | K4Renew | K4Latest.
+
+(* the handler reads a second message from the renter while it holds the lock *)
+Definition r4_reads (k : r4k) : bool :=
+  match k with
+  | K4Free | K4Append | K4Replenish | K4Refresh | K4Renew => true
+  | K4Fund | K4Roots | K4Latest => false
+  end.
+
+Inductive r4pc :=
+| R4Idle
+| R4Call (k : r4k) (i : cid) (rv : bool)
+| R4Got (k : r4k) (i : cid) (rv : bool)
+| R4Body (k : r4k) (i : cid)
+| R4Wait (k : r4k) (i : cid)
+| R4Ret (k : r4k) (i : cid).
+
 Inductive user :=
 | UFree
 | USess (sc : cid) (p : spc)
-| UBr (p : bpc).
+| UBr (p : bpc)
+| UR4 (p : r4pc).
 
 (* what a step of a user asks of the manager *)
 Inductive call :=
@@ -120,7 +179,14 @@ Inductive uact :=
 | BLockReturn
 | BBodyAuto          (* the body of a handler that does not wait for the renter reaches its return *)
 | BRelease           (* the renter (or a timeout) lets a waiting body reach its return *)
-| BDefer.
+| BDefer
+| R4Pre (k : r4k)                       (* a return before LockV2Contract touches the locker *)
+| R4Enter (k : r4k) (i : cid) (b rv : bool)
+| R4LockReturn
+| R4Check            (* server.go:149-153 (the Revisable check) / 528 (latest revision) *)
+| R4Run (w : bool)   (* the body up to its read of the renter's second message (w) or to a return *)
+| R4Renter           (* the renter's message, the end of the stream, or the stream deadline *)
+| R4Defer.
 
 (* one step of the user's program; [th] is the user's own goroutine as the locker model sees it
    (only consulted to see whether its Lock call has returned, and with what) *)
@@ -162,6 +228,23 @@ Definition user_step (legacy : bool) (u : user) (x : uact) (th : thread) : optio
   | UBr (BHeld i false), BBodyAuto => Some (UBr (BRet i), CNone)
   | UBr (BHeld i true), BRelease => Some (UBr (BRet i), CNone)
   | UBr (BRet i), BDefer => Some (UBr BIdle, CUnlock i)
+  | UR4 R4Idle, R4Pre _ => Some (UR4 R4Idle, CNone)
+  | UR4 R4Idle, R4Enter k i b rv => Some (UR4 (R4Call k i rv), CLock i false b)
+  | UR4 (R4Call k i rv), R4LockReturn =>
+      match tpc th with
+      | Holding _ => Some (UR4 (R4Got k i rv), CNone)
+      | Idle => Some (UR4 R4Idle, CNone)
+      | _ => None
+      end
+  | UR4 (R4Got k i rv), R4Check =>
+      match k with
+      | K4Latest => Some (UR4 R4Idle, CUnlock i)
+      | _ => if rv then Some (UR4 (R4Body k i), CNone) else Some (UR4 R4Idle, CUnlock i)
+      end
+  | UR4 (R4Body k i), R4Run w =>
+      Some (UR4 (if (r4_reads k && w)%bool then R4Wait k i else R4Ret k i), CNone)
+  | UR4 (R4Wait k i), R4Renter => Some (UR4 (R4Ret k i), CNone)
+  | UR4 (R4Ret k i), R4Defer => Some (UR4 R4Idle, CUnlock i)
   | _, _ => None
   end.
 
@@ -192,6 +275,10 @@ Definition apply_call (s : state) (t : nat) (c : call) : option state :=
 Definition allowed_base (u : user) (a : action) : bool :=
   match u with
   | UFree => true
+  | UR4 _ => match a with     (* lock.go:122: context.Background() — the call cannot be cancelled *)
+             | ARecv _ | AErrUnlock _ => true
+             | _ => false
+             end
   | _ => match a with
          | ARecv _ | ACancelChosen _ | ACancelCommit _ | AErrUnlock _ | ACtxDone _ => true
          | _ => false
@@ -241,7 +328,7 @@ Definition call_of (legacy : bool) (us : usys) (a : uaction) : option (nat * cal
 
 Definition user_init (u : user) : bool :=
   match u with
-  | UFree | UBr BIdle => true
+  | UFree | UBr BIdle | UR4 R4Idle => true
   | USess sc SLoop => (sc =? 0)%N
   | _ => false
   end.
@@ -260,7 +347,8 @@ Definition uinternal (a : uaction) : bool :=
   match a with
   | UBase b => internal b
   | UAct _ x => match x with
-                | SLockReturn | SChallenge | SWriteResp _ | SEnd | BLockReturn | BBodyAuto | BDefer => true
+                | SLockReturn | SChallenge | SWriteResp _ | SEnd | BLockReturn | BBodyAuto | BDefer
+                | R4LockReturn | R4Check | R4Run _ | R4Defer => true
                 | _ => false
                 end
   end.
@@ -268,7 +356,8 @@ Definition uinternal (a : uaction) : bool :=
 Definition uinternal_actions (t : nat) : list uaction :=
   map UBase (internal_actions t) ++
   [UAct t SLockReturn; UAct t SChallenge; UAct t (SWriteResp true); UAct t (SWriteResp false);
-   UAct t SEnd; UAct t BLockReturn; UAct t BBodyAuto; UAct t BDefer].
+   UAct t SEnd; UAct t BLockReturn; UAct t BBodyAuto; UAct t BDefer;
+   UAct t R4LockReturn; UAct t R4Check; UAct t (R4Run true); UAct t (R4Run false); UAct t R4Defer].
 
 Definition uenabled_internal (us : usys) : list usys :=
   flat_map (fun t => flat_map (fun a => match ustep us a with Some s' => [s'] | None => [] end)
@@ -318,6 +407,10 @@ Definition ustat_of (u : user) (th : thread) : ustat :=
   | UBr (BCall i _) => match tpc th with Waiting _ _ => OBWait i | _ => OTransient end
   | UBr (BHeld i true) => OBHeld i
   | UBr _ => OTransient
+  | UR4 R4Idle => OBIdle
+  | UR4 (R4Call _ i _) => match tpc th with Waiting _ _ => OBWait i | _ => OTransient end
+  | UR4 (R4Wait _ i) => OBHeld i
+  | UR4 _ => OTransient
   end
   end.
 
@@ -355,11 +448,25 @@ Definition bpc_eqb (p q : bpc) : bool :=
   | BRet i, BRet j => (i =? j)%N
   | _, _ => false
   end.
+Definition r4k_eqb (a b : r4k) : bool :=
+  match a, b with
+  | K4Free, K4Free | K4Append, K4Append | K4Fund, K4Fund | K4Replenish, K4Replenish | K4Roots, K4Roots
+  | K4Refresh, K4Refresh | K4Renew, K4Renew | K4Latest, K4Latest => true
+  | _, _ => false
+  end.
+Definition r4pc_eqb (p q : r4pc) : bool :=
+  match p, q with
+  | R4Idle, R4Idle => true
+  | R4Call k i g, R4Call l j h | R4Got k i g, R4Got l j h => (r4k_eqb k l && (i =? j)%N && Bool.eqb g h)%bool
+  | R4Body k i, R4Body l j | R4Wait k i, R4Wait l j | R4Ret k i, R4Ret l j => (r4k_eqb k l && (i =? j)%N)%bool
+  | _, _ => false
+  end.
 Definition user_eqb (u v : user) : bool :=
   match u, v with
   | UFree, UFree => true
   | USess a p, USess b q => ((a =? b)%N && spc_eqb p q)%bool
   | UBr p, UBr q => bpc_eqb p q
+  | UR4 p, UR4 q => r4pc_eqb p q
   | _, _ => false
   end.
 Definition usys_eqb (a b : usys) : bool :=
@@ -372,7 +479,12 @@ Definition uact_eqb (x y : uact) : bool :=
   | SWriteResp a, SWriteResp b | SRpcOther a, SRpcOther b => Bool.eqb a b
   | SLockReturn, SLockReturn | SChallenge, SChallenge | SRpcUnlock, SRpcUnlock | SClose, SClose
   | SEnd, SEnd | SNew, SNew | BLockReturn, BLockReturn | BBodyAuto, BBodyAuto | BRelease, BRelease
-  | BDefer, BDefer => true
+  | BDefer, BDefer | R4LockReturn, R4LockReturn | R4Check, R4Check | R4Renter, R4Renter
+  | R4Defer, R4Defer => true
+  | R4Pre k, R4Pre l => r4k_eqb k l
+  | R4Run a, R4Run b => Bool.eqb a b
+  | R4Enter k i b r, R4Enter l j c q =>
+      (r4k_eqb k l && (i =? j)%N && Bool.eqb b c && Bool.eqb r q)%bool
   | BEnter i d b h, BEnter j e c k =>
       ((i =? j)%N && Bool.eqb d e && Bool.eqb b c && Bool.eqb h k)%bool
   | _, _ => false
